@@ -224,9 +224,9 @@ fn reference_conditions(t: &ExtTask, bypass: bool) -> Option<Conds> {
         if refsem::private_recursion(p, &private) {
             why.push(format!("{side} program has private recursion"));
         }
-        for h in p.head_predicates() {
-            if inputs.contains(&(h.symbol.clone(), h.arity)) {
-                why.push(format!("input predicate {}/{} heads a rule of the {side} program", h.symbol, h.arity));
+        for h in refsem::head_predicates(p) {
+            if inputs.contains(&h) {
+                why.push(format!("input predicate {}/{} heads a rule of the {side} program", h.0, h.1));
             }
         }
     };
